@@ -24,7 +24,8 @@ RULE = ("translator: every traced function validated on 60 random inputs per run
         "numeric support: random pva with |lat| <= 85, |pitch| <= 85, any roll/heading in (-180,180), "
         "|V| <= 300 m/s, both altitude modes, random error directions; plus n/2 states with roll or heading within "
         "{0, 0.005, 0.05, 0.5, 2} error magnitudes of +180 / -180 deg and errors that cross / do not cross the cut; "
-        "a case is distinct by its rounded pva + mode")
+        "n/4 positions with longitude within the same fractions of an east error of the +-180 deg meridian "
+        "(latitudes -85..85, crossing in both directions); a case is distinct by its rounded pva + mode")
 
 COLS = ['lat', 'lon', 'alt', 'VN', 'VE', 'VD', 'roll', 'pitch', 'heading']
 ERR = ['north', 'east', 'down', 'VN', 'VE', 'VD', 'roll', 'pitch', 'heading']
@@ -175,20 +176,51 @@ def near_cut_case(rng, wa, k):
     return dict(pva=pva, with_altitude=wa, x=x, e=e), ('roll' if idx == 6 else 'heading', side, cross, frac)
 
 
+def near_meridian_case(rng, wa, k):
+    """A position whose longitude lies within a few error magnitudes of the +-180 deg meridian, with an east
+    error whose correction / perturbation carries the point ACROSS the meridian (both sides, both directions)
+    or stays just short of it.  Longitude is not an angle the library wraps: perturb_lla may return a longitude
+    beyond +-180 and compute_state_difference differences longitudes as they are, consistently."""
+    from pyins import earth
+    nst = 9 if wa else 7
+    pva = rand_pva(rng)
+    if k % 5 == 0:
+        pva[0] = [-85.0, -60.0, 0.0, 45.0, 85.0][(k // 5) % 5]
+    x = rand_x(rng, nst)
+    e = rand_e(rng, wa)
+    side = 1.0 if k % 2 == 0 else -1.0
+    cross = (k // 2) % 4 != 3
+    frac = [2.0, 0.5, 0.05, 0.005, 0.0][(k // 8) % 5]
+    _, _, rp = earth.principal_radii(pva[0], pva[2])
+    # correct_pva moves the longitude by -s*x[1]/rp: crossing at +180 needs x[1] < 0
+    if (x[1] < 0) != ((side > 0) == cross):
+        x[1] = -x[1]
+    # perturb_pva moves it by +s*e[1]/rp: crossing at +180 needs e[1] > 0
+    if (e[1] > 0) != ((side > 0) == cross):
+        e[1] = -e[1]
+    delta = frac * math.degrees(max(abs(x[1]), abs(e[1]), 1e-3) / float(rp))
+    pva[1] = side * (180.0 - delta)
+    return dict(pva=pva, with_altitude=wa, x=x, e=e), ('longitude', side, cross, frac)
+
+
 def numeric_statements(r, n, seed_shift=5, n_cut=None):
     rng = random.Random(r.seed + seed_shift)
     fails = []
     dist = dict(cases=0, with_altitude=0, no_altitude=0, special_lat_pitch=0, near_cut=0)
     n_cut = n // 2 if n_cut is None else n_cut
     # attitudes at the +-180 deg cut of roll / heading (order and restore statements only)
-    for k in range(n_cut):
+    for k in range(n_cut + n_cut // 2):
         wa = (rng.random() < 0.5)
         try:
-            p, tag = near_cut_case(rng, wa, k)
+            if k < n_cut:
+                p, tag = near_cut_case(rng, wa, k)
+            else:                                  # positions at the +-180 deg meridian
+                p, tag = near_meridian_case(rng, wa, k - n_cut)
+                dist['near_meridian'] = dist.get('near_meridian', 0) + 1
         except Exception as ex:
             fails.append(("C05: transform_to_output crashed on a domain input", dict(kind='crash', detail=repr(ex))))
             continue
-        dist['near_cut'] += 1
+        dist['near_cut'] += (1 if k < n_cut else 0)
         r.case(("cut", wa, k % 80) + tuple(round(v, 6) for v in p['pva']), sample=dict(p, near_cut=list(map(str, tag))))
         for kind in ('order', 'restore'):
             try:
@@ -196,7 +228,7 @@ def numeric_statements(r, n, seed_shift=5, n_cut=None):
             except Exception as ex:
                 ok, det = False, dict(exception=repr(ex))
             if not ok:
-                fails.append((f"C05 {kind} fails on the implementation ({tag[0]} at the +-180 deg cut)",
+                fails.append((f"C05 {kind} fails on the implementation ({tag[0]} at +-180 deg)",
                               dict(kind=kind, params=p, detail=det, near_cut=list(map(str, tag)))))
     for i in range(n):
         pva = rand_pva(rng)
@@ -253,7 +285,7 @@ def check(r):
         r.broken('harness', 'translator/proof stage', repr(ex))
     n = 120 if r.tier == 'quick' else 4000
     fails = numeric_statements(r, n)
-    r.coverage['numeric_support'] = dict(pva=n, near_cut=n // 2, failures=len(fails))
+    r.coverage['numeric_support'] = dict(pva=n, near_cut=n // 2, near_meridian=n // 4, failures=len(fails))
     for what, rep in fails[:5]:
         r.violation(what, rep)
 
